@@ -259,7 +259,7 @@ def make_modules(m):
                 return rs, [], []
         if timeout is None:
             raise RuntimeError("model: select(None) with nothing scheduled would block forever")
-        m.clock = deadline
+        m.clock = deadline + 0.001        # a real clock read after the wait is never exactly the deadline
         return [], [], []
 
     select = types.SimpleNamespace(select=select_)
